@@ -11,6 +11,7 @@ import (
 )
 
 type tcpConn struct {
+	ctx          context.Context
 	cancelReader *ioutil.CancelableReader
 	conn         *net.TCPConn
 	timeout      time.Duration
@@ -33,6 +34,7 @@ func NewTCP(cfg TCPConnConfig) (Conn, error) {
 	}
 
 	return &tcpConn{
+		ctx:          cfg.Ctx,
 		cancelReader: ioutil.NewCancelableReader(cfg.Ctx, conn),
 		conn:         conn,
 		timeout:      cfg.Timeout,
@@ -47,13 +49,24 @@ func (t *tcpConn) Write(b []byte) (int, error) {
 	return t.conn.Write(b)
 }
 
-func (t *tcpConn) Read(b []byte) (int, error) {
+func (t *tcpConn) Read(b []byte) (n int, err error) {
+	// CancelableReader closes its channels when the context is done. Read which starts exactly at this moment
+	// panics with "send on closed channel" instead of returning context error, so we are returning it here
+	defer func() {
+		if r := recover(); r != nil {
+			if t.ctx == nil || t.ctx.Err() == nil {
+				panic(r)
+			}
+			n, err = 0, t.ctx.Err()
+		}
+	}()
+
 	if t.timeout > 0 {
 		err := t.conn.SetReadDeadline(time.Now().Add(t.timeout))
 		check(err)
 	}
 
-	n, err := t.cancelReader.Read(b)
+	n, err = t.cancelReader.Read(b)
 	if err != nil {
 		if e, ok := err.(*net.OpError); ok {
 			if e.Err.Error() == "i/o timeout" {
